@@ -14,8 +14,10 @@ def run(res):
                  "hand-written sequential model Client/Queues.v of client/gribiclient.go, validated on every run against the real client",
                  "correspondence harness vh-c13: real client over in-memory gRPC (bufconn) against a scripted stub server; "
                  "quiescence detected by counting the client's own SendMsg/RecvMsg calls (stream interceptor) and Done()"],
-        assumptions=["one event at a time: the harness lets the client absorb each call / response before the next one "
-                     "(interleavings of the goroutines inside one event are C14's subject)",
+        extra_runs=[("c13race", 8 if res.tier == "quick" else 120)],
+        assumptions=["one event at a time in the model: the harness lets the client absorb each call / response before the next one; "
+                     "one interleaving is exercised on the implementation in addition (vh-c13 c13race: callers spinning in AwaitConverged while one response "
+                     "both answers the last pending operation and records a receive error - none may return nil); other interleavings are C14's subject",
                      "TreatRIBACKAsCompletedInFIBACKMode = false (the default)",
                      "queued operation ids pairwise distinct (the theorems' hypothesis; duplicate ids are modelled and compared, not claimed)",
                      "AckResult is not part of the scripts"],
